@@ -107,3 +107,190 @@ Print Assumptions C14_unobserved_entry_gone_after_five_minutes.
 Print Assumptions C14_completed_entry_gone_after_an_hour.
 Print Assumptions C14_completed_entry_kept_for_an_hour.
 Print Assumptions C14_tick_applies_per_entry.
+
+(* ================================================================== extension X7: the cleanup tick INSIDE the re-observation loop =====
+   model/ReobsLoop.v feeds the [ObsReq chain tx] output of this tick through PostObservationRequest / obsvReqSendC, p2p's request
+   goroutine (local delivery + signed publication), the dispatcher (C17), an oracle for the watchers' re-observation paths (C08 / C10)
+   and back into the processor's handle_message, on ONE clock; see props/C17.v for the vocabulary and the dispatcher-side theorems
+   (cadence bound 23 min 30 s, at most one forward per 11 min, network hop).  [pending_at st h c tx]: the entry of digest h is a signed,
+   unsubmitted, settled entry with budget left, no quorum VAA stored, at least five minutes old; c / tx = what its request carries.
+   [lretried st h]: the cleanup step taken in st retries that entry. *)
+From WH Require Import gen.ExtractedWiring model.ProcSpec model.ReobsLoop proofs.ProcC02Proofs proofs.SystemLiveProofs proofs.ReobsLoopProofs.
+
+(* the cleanup step of the composition IS this model's tick evaluated at the node's clock reading: per entry [cleanup_entry]; the
+   tick's outputs are in the trace; every request it emits is posted to obsvReqSendC (queued, or ErrChanFull recorded) *)
+Theorem C14_loop_cleanup_step_is_the_tick :
+  forall recover keccak sign own gov_chain gov_addr decode_hb decodeq encq self disable watch st,
+  let lstep := lstep recover keccak sign own gov_chain gov_addr decode_hb decodeq encq self disable watch in
+  KeysND (l_proc st) -> let st' := fst (lstep st LCleanup) in let p := l_proc st in let now := l_now st in
+  (forall h, alookup h (agg (l_proc st')) =
+     match alookup h (agg p) with
+     | None => None
+     | Some e => match cleanup_entry now (in_db_of p e) (ckb p) e with CKeep e' _ => Some e' | CDelete => None | CPanic => Some e end
+     end) /\
+  cur (l_proc st') = cur p /\ db (l_proc st') = db p /\ l_now st' = now /\ l_disp st' = l_disp st /\
+  In (now, EProc Cleanup (snd (tick_of p now))) (snd (lstep st LCleanup)) /\
+  (forall r, In r (flat_map req_of_out (snd (tick_of p now))) -> In r (l_sendq st') \/ In (now, EPost r Reobserve.PostErrChanFull) (snd (lstep st LCleanup))) /\
+  incl (l_sendq st) (l_sendq st').
+Proof. exact lcleanup_effect. Qed.
+
+(* a cleanup tick at which the retry of a pending message is due finds it done: that tick retries it (a request for its transaction
+   on its chain goes out), unless an earlier tick of the stretch already did *)
+Theorem C14_loop_due_tick_retries :
+  forall recover keccak sign own gov_chain gov_addr decode_hb decodeq encq self disable watch h c tx H1 st0,
+  let lrun := lrun recover keccak sign own gov_chain gov_addr decode_hb decodeq encq self disable watch in
+  let lstates := lstates recover keccak sign own gov_chain gov_addr decode_hb decodeq encq self disable watch in
+  LInv st0 -> lmono (l_now st0) (H1 ++ [LCleanup]) ->
+  (forall s, In (s, LCleanup) (lstates st0 (H1 ++ [LCleanup])) -> pending_at s h c tx) ->
+  (forall e L, alookup h (agg (l_proc st0)) = Some e -> last_retry e = Some L -> L + proc_retry_ns <= l_now (fst (lrun st0 H1))) ->
+  exists s, In (s, LCleanup) (lstates st0 (H1 ++ [LCleanup])) /\ lretried s h = true.
+Proof. exact retry_by_due_tick. Qed.
+
+(* a request waiting in obsvReqSendC reaches the local dispatcher at the clock reading at which it waits, if p2p's goroutine keeps up *)
+Theorem C14_loop_posted_request_reaches_the_dispatcher :
+  forall recover keccak sign own gov_chain gov_addr decode_hb decodeq encq self disable watch H st r,
+  In r (l_sendq st) -> drained recover keccak sign own gov_chain gov_addr decode_hb decodeq encq self disable watch st H ->
+  exists s x, In (l_now st, EDisp s (Reobserve.Req r (l_now st)) x)
+                 (snd (lrun recover keccak sign own gov_chain gov_addr decode_hb decodeq encq self disable watch st H)).
+Proof. exact pumped. Qed.
+
+(* (b) NO AMPLIFICATION at the processor: within one lifetime of its entry, a message retried at L is retried again no earlier than
+   L + 5 min - one request per pending message per retry period, however often the ticker fires and whatever else happens *)
+Theorem C14_loop_retries_at_least_the_period_apart :
+  forall recover keccak sign own gov_chain gov_addr decode_hb decodeq encq self disable watch h H2 st1 e1,
+  let lrun := lrun recover keccak sign own gov_chain gov_addr decode_hb decodeq encq self disable watch in
+  LInv st1 -> lmono (l_now st1) (H2 ++ [LCleanup]) ->
+  alive recover keccak sign own gov_chain gov_addr decode_hb decodeq encq self disable watch st1 (H2 ++ [LCleanup]) h ->
+  alookup h (agg (l_proc st1)) = Some e1 ->
+  forall L, last_retry e1 = Some L -> lretried (fst (lrun st1 H2)) h = true -> proc_retry_ns <= l_now (fst (lrun st1 H2)) - L.
+Proof. exact loop_retries_period_apart. Qed.
+
+(* (e) BUDGET: along every history the retry counter of every entry stays within the extracted budget (14400), and the number of
+   retries - requests - of one message within one lifetime of its entry is exactly the growth of its counter *)
+Theorem C14_loop_retry_counter_within_budget :
+  forall recover keccak sign own gov_chain gov_addr decode_hb decodeq encq self disable watch H st,
+  LInv st -> lmono (l_now st) H -> budget_ok (l_proc st) ->
+  budget_ok (l_proc (fst (lrun recover keccak sign own gov_chain gov_addr decode_hb decodeq encq self disable watch st H))).
+Proof. exact loop_budget. Qed.
+Theorem C14_loop_requests_per_message_are_counted :
+  forall recover keccak sign own gov_chain gov_addr decode_hb decodeq encq self disable watch h H st e e',
+  LInv st -> lmono (l_now st) H -> alive recover keccak sign own gov_chain gov_addr decode_hb decodeq encq self disable watch st H h ->
+  alookup h (agg (l_proc st)) = Some e ->
+  alookup h (agg (l_proc (fst (lrun recover keccak sign own gov_chain gov_addr decode_hb decodeq encq self disable watch st H)))) = Some e' ->
+  nretries h (lstates recover keccak sign own gov_chain gov_addr decode_hb decodeq encq self disable watch st H) = retries e' - retries e.
+Proof. exact loop_retry_count. Qed.
+Theorem C14_loop_budget_is_14400 : proc_own_retry_budget = 14400 /\ budget_ok (l_proc linit).
+Proof. split; [reflexivity|intros h e X; discriminate X]. Qed.
+
+(* (c) SAFETY THROUGH THE LOOP: over every history from the initial state - any requests, of any peer, for any transaction, at any
+   rate - every chain message the processor handles was handed over by the environment (a watcher's polling path) or is in the answer
+   of the re-observation path of watcher c to a request naming chain c; with the watchers' contract (C08 / C10: only final messages)
+   every such message is final; the processor signs only while handling a chain message / injection (the tick re-broadcasts), and
+   handling a chain message never publishes a VAA (re-observing an already signed message: same digest by C02, no second publication) *)
+Theorem C14_loop_signs_only_what_watchers_forward :
+  forall recover keccak sign own gov_chain gov_addr decode_hb decodeq encq self disable watch H u m outs,
+  In (u, EProc (LocalMsg m) outs) (snd (lrun recover keccak sign own gov_chain gov_addr decode_hb decodeq encq self disable watch linit H)) ->
+  (exists s, In (s, LEnv (VMsg m)) (lstates recover keccak sign own gov_chain gov_addr decode_hb decodeq encq self disable watch linit H)) \/
+  (exists s c r, In (s, LWatch c) (lstates recover keccak sign own gov_chain gov_addr decode_hb decodeq encq self disable watch linit H) /\
+                 Reobserve.chain_of r = c /\ In m (watch c r (l_now s))).
+Proof. exact loop_signs_only_watched. Qed.
+Theorem C14_loop_signs_only_final_messages :
+  forall recover keccak sign own gov_chain gov_addr decode_hb decodeq encq self disable watch (Final : Z -> msgpub -> Prop) (FinalEnv : msgpub -> Prop) H,
+  (forall c r t m, Reobserve.chain_of r = c -> In m (watch c r t) -> Final c m) ->
+  (forall s m, In (s, LEnv (VMsg m)) (lstates recover keccak sign own gov_chain gov_addr decode_hb decodeq encq self disable watch linit H) -> FinalEnv m) ->
+  forall u m outs, In (u, EProc (LocalMsg m) outs) (snd (lrun recover keccak sign own gov_chain gov_addr decode_hb decodeq encq self disable watch linit H)) ->
+  FinalEnv m \/ exists c, Final c m.
+Proof. exact loop_signs_only_final. Qed.
+Theorem C14_loop_gossip_never_feeds_a_chain_message :
+  forall recover keccak sign own gov_chain gov_addr decode_hb decodeq encq self disable watch st o u m outs,
+  In (u, EProc (LocalMsg m) outs) (snd (lstep recover keccak sign own gov_chain gov_addr decode_hb decodeq encq self disable watch st o)) ->
+  o = LEnv (VMsg m) \/ exists c r, o = LWatch c /\ snd (Reobserve.step (l_disp st) (Reobserve.Drain c)) = Reobserve.Drained (Some r) /\ In m (watch c r (l_now st)).
+Proof. exact lstep_localmsg_source. Qed.
+Theorem C14_loop_signing_sources : forall recover keccak sign own gov_chain gov_addr p o ob,
+  In (SendObs ob) (snd (step recover keccak sign own gov_chain gov_addr p o)) -> (exists m, o = LocalMsg m) \/ (exists v, o = Inject v) \/ o = Cleanup.
+Proof. exact sendobs_source. Qed.
+Theorem C14_loop_chain_message_never_publishes : forall recover keccak sign own gov_chain gov_addr p m x,
+  In x (snd (step recover keccak sign own gov_chain gov_addr p (LocalMsg m))) -> match x with SendVAA _ | Store _ _ => False | _ => True end.
+Proof. exact handle_message_never_publishes. Qed.
+(* the Alephium watcher's re-observation path (model/AlphPipeline.v: reobserve.go with the conversions) is an instance of the oracle,
+   and C08's end-to-end theorem is its contract *)
+Theorem C14_loop_alephium_watcher_contract : forall cfg EP HP AP node other,
+  (forall r t, AlphPipelineBase.xop_ok cfg EP HP AP (AlphPipeline.XReobs (node r t))) ->
+  forall r t m, In m (alph_watch cfg node other Extracted.alph_chain_id r t) ->
+  exists f, m = AlphPipeline.xf_pub f /\ AlphPipelineRead.faithful cfg EP HP AP f /\ AlphPipelineSafety.reobs_from cfg (node r t) f /\
+    AlphWatcherSafety.justified (AlphPipeline.abs_cfg cfg) (AlphPipelineBase.EPa EP) HP (AlphPipelineBase.APa AP)
+      (AlphPipeline.abs_op (AlphPipeline.XReobs (node r t))) (AlphPipeline.abs_fwd f).
+Proof. exact alph_watch_contract. Qed.
+
+(* (d) RECOVERY: composition with C02's liveness.  After any history H0 of the composed node, over any continuation H without set
+   change and cleanup tick at this node: G in force, nothing known about m (the node missed it), the processor handles m and signs it
+   somewhere in H - C14_loop_watcher_answer_is_signed: because its watcher took a request from its queue and answered [m] -, the
+   observations of the other members of a quorum arrive, the own signature has looped back: m is published *)
+Theorem C14_loop_recovery :
+  forall recover keccak sign own gov_chain gov_addr decode_hb decodeq encq self disable watch,
+  (forall b, length (keccak b) = 32%nat) -> length own = 20%nat -> (forall d, length d = 32%nat -> rec recover d (sign d) = Some own) ->
+  forall G h, In own (keys G) -> forall H0 H (signers : list addr) m,
+  let lrun := lrun recover keccak sign own gov_chain gov_addr decode_hb decodeq encq self disable watch in
+  let stepf := fun st o => fst (step recover keccak sign own gov_chain gov_addr st o) in
+  let st0 := fst (lrun linit H0) in let st := fst (lrun st0 H) in
+  let ops0 := pops (snd (lrun linit H0)) in let ops := pops (snd (lrun st0 H)) in
+  Forall op_wf ops0 -> Forall op_wf ops -> forallb calm ops = true ->
+  cur (l_proc st0) = Some G -> alookup h (agg (l_proc st0)) = None -> ProcSpec.gs_wf G ->
+  dg keccak (vaa_of_message 0 m) = h ->
+  happens stepf (ev_msg recover keccak sign own gov_chain gov_addr m) (l_proc st0) ops ->
+  NoDup signers -> incl signers (keys G) -> go_quorum (Z.of_nat (length (keys G))) <= Z.of_nat (length signers) ->
+  (forall a, In a signers -> a <> own -> happens stepf (ev_obs recover h a) (l_proc st0) ops) ->
+  (forall o, In o (loopq (l_proc st)) -> o_hash o <> h) ->
+  exists e, alookup h (agg (l_proc st)) = Some e /\ our_vaa e <> None /\ gs_snap e = Some G /\ submitted e = true.
+Proof. exact loop_recovery. Qed.
+Theorem C14_loop_watcher_answer_is_signed :
+  forall recover keccak sign own gov_chain gov_addr decode_hb decodeq encq self disable watch st0 H1 H2 c q r rest m,
+  let lrun := lrun recover keccak sign own gov_chain gov_addr decode_hb decodeq encq self disable watch in
+  let s := fst (lrun st0 H1) in
+  Reobserve.find_queue (Reobserve.queues (l_disp s)) c = Some q -> Reobserve.q_items q = r :: rest -> watch c r (l_now s) = [m] ->
+  existsb is_sendobs (snd (step recover keccak sign own gov_chain gov_addr (l_proc s) (LocalMsg m))) = true ->
+  happens (fun st o => fst (step recover keccak sign own gov_chain gov_addr st o)) (ev_msg recover keccak sign own gov_chain gov_addr m)
+          (l_proc st0) (pops (snd (lrun st0 (H1 ++ LWatch c :: H2)))).
+Proof. exact loop_watch_observes. Qed.
+
+(* ---------------------------------------------------------------- computed: a node that missed the message recovers through the loop *)
+Definition rx_own : addr := repeat x01 20.
+Definition rx_recover (h s : bytes) : option bytes := Some (firstn 20 s).
+Definition rx_keccak (b : bytes) : bytes := repeat x00 32.
+Definition rx_sign (d : bytes) : bytes := rx_own ++ repeat x00 45.
+Definition rx_msg : msgpub := {| m_tx := [x07]; m_ts := 1700000000; m_tns := 0; m_nonce := 1; m_seq := 5; m_cl := 1;
+                                 m_echain := 2; m_tchain := 255; m_eaddr := repeat x02 32; m_payload := [x01; x02] |}.
+Definition rx_peer : addr := repeat x03 20.
+Definition rx_G : gset := {| keys := [rx_own; rx_peer] ; gidx := 3 |}.
+Definition rx_watch (c : Z) (r : Reobserve.req) (t : Z) : list msgpub := if (c =? 2) && bytes_eqb (Reobserve.r_tx r) [x07] then [rx_msg] else [].
+Definition rx_run := lrun rx_recover rx_keccak rx_sign rx_own 1 (repeat x00 32) (fun _ => None) (fun _ => None) (fun _ => []) [x09] false rx_watch.
+(* the node learns the set; a request for transaction 07 on chain 2 arrives (here: posted locally and pumped), is forwarded; the
+   watcher answers with the message; the peer's observation arrives by gossip; the own signature loops back: published *)
+Definition rx_H0 : list lop := [LEnv (VSetGS rx_G)].
+Definition rx_H : list lop :=
+  [LClock 1000; LAdmin {| Reobserve.r_chain := 2; Reobserve.r_tx := [x07] |}; LPump; LWatch 2;
+   LGossip [x05] (P2PVerify.MObservation {| o_addr := rx_peer; o_hash := repeat x00 32; o_sig := rx_peer ++ repeat x00 45; o_tx := [x07] |}); LEnv (VLoop 0)].
+Example C14_loop_recovery_computed :
+  let st0 := fst (rx_run linit rx_H0) in let tr := snd (rx_run st0 rx_H) in
+  map (fun e => match snd e with EDisp _ _ x => x | _ => Reobserve.Purged end) (filter (fun e => match snd e with EDisp _ _ _ => true | _ => false end) tr)
+    = [Reobserve.Forward 2; Reobserve.Drained (Some {| Reobserve.r_chain := 2; Reobserve.r_tx := [x07] |})] /\
+  existsb (fun e => match snd e with EWatch 2 _ [m] => true | _ => false end) tr = true /\
+  existsb (fun e => match snd e with EProc (Loopback 0) outs => existsb is_bcast outs | _ => false end) tr = true /\
+  forallb calm (pops tr) = true /\ alookup (repeat x00 32) (agg (l_proc st0)) = None /\ cur (l_proc st0) = Some rx_G.
+Proof. vm_compute. repeat split; reflexivity. Qed.
+
+Print Assumptions C14_loop_cleanup_step_is_the_tick.
+Print Assumptions C14_loop_due_tick_retries.
+Print Assumptions C14_loop_posted_request_reaches_the_dispatcher.
+Print Assumptions C14_loop_retries_at_least_the_period_apart.
+Print Assumptions C14_loop_retry_counter_within_budget.
+Print Assumptions C14_loop_requests_per_message_are_counted.
+Print Assumptions C14_loop_budget_is_14400.
+Print Assumptions C14_loop_signs_only_what_watchers_forward.
+Print Assumptions C14_loop_signs_only_final_messages.
+Print Assumptions C14_loop_gossip_never_feeds_a_chain_message.
+Print Assumptions C14_loop_signing_sources.
+Print Assumptions C14_loop_chain_message_never_publishes.
+Print Assumptions C14_loop_alephium_watcher_contract.
+Print Assumptions C14_loop_recovery.
+Print Assumptions C14_loop_watcher_answer_is_signed.
